@@ -287,19 +287,20 @@ type caseHdr struct {
 func (h caseHdr) want(tag int) bool { return h.mask == 0 || h.mask&(1<<uint(tag)) != 0 }
 
 type runner struct {
-	hdr      caseHdr
-	be       *backend
-	fe       *frontend
-	vt       *termemu.VerifTerm
-	done     chan struct{}
-	crashed  bool
-	crashMsg string
-	wedged   bool
-	blocked  bool
-	opidx    int
-	fed      int
-	out      *bufio.Writer
-	loopErr  error
+	hdr             caseHdr
+	be              *backend
+	fe              *frontend
+	vt              *termemu.VerifTerm
+	done            chan struct{}
+	crashed         bool
+	crashMsg        string
+	wedged          bool
+	blocked         bool
+	lockHeldWaiting int
+	opidx           int
+	fed             int
+	out             *bufio.Writer
+	loopErr         error
 }
 
 func (r *runner) start() {
@@ -479,6 +480,11 @@ func (r *runner) observe() []string {
 	fmt.Fprintln(o)
 
 	// ---- direct predicates on the implementation ----
+	if !r.crashed && !r.wedged {
+		if msg := r.accessorSweep(&snap); msg != "" {
+			problems = append(problems, msg)
+		}
+	}
 	if r.crashed {
 		problems = append(problems, "C01 panic: "+firstLine(r.crashMsg))
 	}
@@ -568,6 +574,71 @@ func (r *runner) maskedWriter(tag int) *bufio.Writer {
 	return discard
 }
 
+// accessorSweep calls every read accessor with in-range arguments under the
+// lock (as the API contract requires) and checks that Line, StyledLine and
+// ANSILine describe the same text.
+func (r *runner) accessorSweep(snap *termemu.VerifSnapshot) (msg string) {
+	t := r.vt.Terminal()
+	defer func() {
+		if e := recover(); e != nil {
+			msg = "C01 accessor panic: " + firstLine(fmt.Sprint(e))
+		}
+	}()
+	// The loop is parked in the backend read.  If it still holds the terminal
+	// lock it is waiting inside an escape sequence (known finding D38): skip.
+	if !r.vt.T.TryLock() {
+		r.lockHeldWaiting++
+		return ""
+	}
+	defer r.vt.T.Unlock()
+	res := ""
+	w, h := t.Size()
+	for y := 0; y < h; y++ {
+		line := t.Line(y)
+		full := t.StyledLine(0, w, y)
+		ansi := t.ANSILine(y)
+		if pt := full.PlainTextString(); pt != line && res == "" {
+			res = fmt.Sprintf("C02 Line(%d)=%q but StyledLine(0,W,%d) text=%q", y, line, y, pt)
+		}
+		if st := stripSGR(ansi); st != line && res == "" {
+			res = fmt.Sprintf("C02 Line(%d)=%q but ANSILine(%d) text=%q", y, line, y, st)
+		}
+		sum := 0
+		for _, sp := range full.Spans {
+			sum += sp.Width
+			if sp.Width <= 0 && res == "" {
+				res = fmt.Sprintf("C02 StyledLine(0,W,%d) has a run of width %d", y, sp.Width)
+			}
+		}
+		if sum != w && res == "" {
+			res = fmt.Sprintf("C02 StyledLine(0,W,%d) runs sum to %d, width %d", y, sum, w)
+		}
+		for _, xr := range [][2]int{{0, 1}, {w / 2, w - w/2}, {w - 1, 1}, {0, -1}} {
+			_ = t.StyledLine(xr[0], xr[1], y)
+		}
+	}
+	_ = t.StyledLines(termemu.Region{X: 0, Y: 0, X2: w, Y2: h})
+	_ = t.StyledLines(termemu.Region{X: w / 2, Y: h / 2, X2: w, Y2: h})
+	return res
+}
+
+// stripSGR removes ESC [ ... m sequences and NUL bytes.
+func stripSGR(s string) string {
+	var b strings.Builder
+	for i := 0; i < len(s); i++ {
+		if s[i] == 0x1b && i+1 < len(s) && s[i+1] == '[' {
+			j := i + 2
+			for j < len(s) && s[j] != 'm' {
+				j++
+			}
+			i = j
+			continue
+		}
+		b.WriteByte(s[i])
+	}
+	return b.String()
+}
+
 func firstLine(s string) string {
 	if i := strings.IndexByte(s, '\n'); i >= 0 {
 		s = s[:i]
@@ -632,6 +703,14 @@ func runCases(in io.Reader, out io.Writer) {
 		case 111:
 			if r.blocked {
 				continue
+			}
+			if !(r.crashed || r.wedged) && !r.vt.T.TryLock() {
+				// the loop holds the lock while it waits for the rest of an escape sequence
+				r.blocked = true
+				fmt.Fprintf(w, "X blocked Resize would not return: terminal lock held by the read loop\n")
+				continue
+			} else if !(r.crashed || r.wedged) {
+				r.vt.T.Unlock()
 			}
 			if !(r.crashed || r.wedged) {
 				done := make(chan struct{})
